@@ -1,5 +1,7 @@
 import PolyplyVerif.Driver.Common
 import PolyplyVerif.Model.BuildFile
+import PolyplyVerif.Model.BuildFileText
+import PolyplyVerif.Model.BuildFileTextSizes
 open Lean PolyplyVerif PolyplyVerif.BuildFile
 
 /-!
@@ -113,9 +115,99 @@ def parseSpecs (j : Json) (field : String) : Except String (Except String (List 
   let texts ← texts.toList.mapM (·.getStr?)
   pure (texts.mapM parseSpec)
 
+/-! #### text level (`Model/BuildFileText.lean`): rationals travel as "num/den" strings -/
+section text
+open PolyplyVerif.BuildFileText
+
+def ratsToJson (l : List Rat) : Json := Json.arr (l.map toJson).toArray
+
+def v3ToJson (p : Rat × Rat × Rat) : Json := ratsToJson [p.1, p.2.1, p.2.2]
+
+/-- `{"resname","start","stop","parameters":[inout, point, *params, type]}` with the translated layout -/
+def geomToJson (g : Geom) : Json :=
+  let params := BuildFileTables.geomLayout.flatMap fun
+    | "inout" => [Json.str g.inout]
+    | "point" => [v3ToJson g.point]
+    | "rest" => g.params.map toJson
+    | "type" => [Json.str g.kind]
+    | _ => [Json.null]
+  Json.arr #[Json.str g.resname, toJson g.start, toJson g.stop, Json.arr params.toArray]
+
+def rwToJson (d : RwDef) : Json :=
+  Json.arr #[Json.str d.resname, toJson d.start, toJson d.stop, Json.arr #[v3ToJson d.vec, toJson d.angle]]
+
+def recDist (p : Parsed) (payload : Nat) : Json :=
+  match p.recs[payload]? with
+  | some (.dist d) => Json.arr #[toJson d.dist, toJson d.tol]
+  | _ => Json.null
+
+def recPers (p : Parsed) (payload : Nat) : Json :=
+  match p.recs[payload]? with
+  | some (.pers d) => Json.arr #[Json.str d.model, toJson d.lp, toJson d.start, toJson d.stop]
+  | _ => Json.null
+
+def geomPayloads (p : Parsed) (l : List Nat) : Json := Json.arr (l.map fun k => optToJson geomToJson (p.geomOf k)).toArray
+def rwPayloads (p : Parsed) (l : List Nat) : Json := Json.arr (l.map fun k => optToJson rwToJson (p.rwOf k)).toArray
+
+def keyJson (k : MKey) (v : Json) : Json := Json.arr #[Json.str k.1, toJson k.2, v]
+
+def parsedToJson (mols : List Mol) (p : Parsed) : Json :=
+  okJson [
+    ("options", Json.arr (p.dir.buildOptions.map fun (k, ds) => keyJson k (geomPayloads p (ds.map (·.payload)))).toArray),
+    ("rw", Json.arr (p.dir.rwOptions.map fun (k, d) => keyJson k (optToJson rwToJson (p.rwOf d.payload))).toArray),
+    ("dist", Json.arr (p.dir.dist.map fun (k, inner) =>
+        keyJson k (Json.arr (inner.map fun (ab, q) => Json.arr #[toJson ab.1, toJson ab.2, recDist p q]).toArray)).toArray),
+    ("pers", Json.arr (p.dir.pers.map fun (_, _, q, idxs) => Json.arr #[recPers p q, natsToJson idxs]).toArray),
+    ("volumes", Json.arr (p.volumes.map fun (r, v) => Json.arr #[Json.str r, toJson v]).toArray),
+    ("bending", Json.arr (p.bending.map fun (k, v) => Json.arr #[Json.str k.1, Json.str k.2.1, Json.str k.2.2, toJson v]).toArray),
+    ("templates", Json.arr (p.templates.map fun t => Json.arr #[Json.str t.resname,
+        Json.arr (t.atoms.map fun a => Json.arr #[Json.str a.name, Json.str a.atype, ratsToJson a.pos]).toArray,
+        Json.arr (t.bonds.map fun b => Json.arr #[Json.str b.1, Json.str b.2]).toArray]).toArray),
+    ("ann", Json.arr ((annotate p.dir mols).map fun a =>
+        Json.arr #[toJson a.molIdx, toJson a.key, geomPayloads p a.restraints, rwPayloads p a.rw]).toArray),
+    ("spec_ann", Json.arr ((specAnnotate p.blocks mols).map fun a =>
+        Json.arr #[toJson a.molIdx, toJson a.key, geomPayloads p a.restraints, rwPayloads p a.rw]).toArray),
+    ("nblocks", toJson p.blocks.length)]
+
+end text
+
 def handle (j : Json) : Except String Json := do
   let op ← (← j.getObjVal? "op").getStr?
   match op with
+  | "build_text" =>
+    let mols ← molsOfJson j
+    let lines ← (← (← j.getObjVal? "lines").getArr?).toList.mapM (·.getStr?)
+    match BuildFileText.readBuildFile mols (lines.map (·.toList)) with
+    | .error e => pure (errJson e)
+    | .ok p => pure (parsedToJson mols p)
+  | "build_text_sizes" =>
+    let lines ← (← (← j.getObjVal? "lines").getArr?).toList.mapM (·.getStr?)
+    let vols0 ← (← (← j.getObjVal? "volumes0").getArr?).toList.mapM fun e => do
+      pure ((← (← e.getArrVal? 0).getStr?), (← ratOfJson (← e.getArrVal? 1)))
+    let oracle ← (← (← j.getObjVal? "oracle").getArr?).toList.mapM fun e => do
+      pure ((← (← e.getArrVal? 0).getStr?), (← ratOfJson (← e.getArrVal? 1)))
+    match BuildFileText.sizesOfText BuildFileTables.sectionParsers vols0 oracle (lines.map (·.toList)) with
+    | .error e => pure (errJson e)
+    | .ok (vols, templ) => pure (okJson [
+        ("volumes", Json.arr (vols.map fun (k, v) => Json.arr #[Json.str k, toJson v]).toArray),
+        ("templates", Json.arr (templ.map fun (h, t) => Json.arr #[Json.str h,
+          Json.arr (t.map fun (n, p) => Json.arr #[Json.str n, ratsToJson [p.x, p.y, p.z]]).toArray]).toArray)])
+  | "tokens" =>
+    let texts ← (← (← j.getObjVal? "texts").getArr?).toList.mapM (·.getStr?)
+    pure (okJson [("tokens", Json.arr (texts.map fun t =>
+      Json.arr ((BuildFileText.splitWs t.toList).map fun tok => Json.str (String.ofList tok)).toArray).toArray)])
+  | "numbers" =>
+    let toks ← (← (← j.getObjVal? "toks").getArr?).toList.mapM (·.getStr?)
+    pure (okJson [("values", Json.arr (toks.map fun t =>
+      Json.arr #[optToJson toJson (BuildFileText.readFloat t.toList), optToJson toJson (BuildFileText.readInt t.toList)]).toArray)])
+  | "sections" =>
+    -- the section reached from `cur` by the header `[ h ]`, and whether a data line can be parsed there
+    let qs ← (← (← j.getObjVal? "queries").getArr?).toList.mapM fun q => do
+      let cur ← (← (← q.getArrVal? 0).getArr?).toList.mapM (·.getStr?)
+      pure (cur, ← (← q.getArrVal? 1).getStr?)
+    pure (okJson [("sections", Json.arr (qs.map fun (cur, h) =>
+      let s := BuildFileText.enterSection BuildFileTables.sectionParsers cur (BuildFileText.headerName h.toList)
+      Json.arr #[Json.arr (s.map Json.str).toArray, Json.bool (BuildFileText.known BuildFileTables.sectionParsers s)]).toArray)])
   | "build" =>
     let mols ← molsOfJson j
     let blocks ← (← (← j.getObjVal? "blocks").getArr?).toList.mapM blockOfJson
